@@ -98,6 +98,7 @@ typedef struct {
 	int has_init;       /* explicit init value differing from default (enum first value) */
 	uint64_t init_bits;
 	uint8_t *dflt_data; size_t dflt_len;   /* string/bytes default contents */
+	uint8_t *decl_data;                     /* private copy of the DECLARED default: the shared default object must keep this content */
 	ProtobufCBinaryData dflt_bd;
 	uint64_t dflt_scalar;
 	char dkind;         /* '-', 'V' scalar, 'S' string, 'B' bytes, 'E' empty string */
@@ -173,6 +174,7 @@ static void free_schema(void)
 			for (j = 0; j < mx->dp->n_fields; j++) { free((char *) mx->f[j].name); free(mx->x[j].dflt_data); }
 			free((char *) mx->dp->name); free(mx->f);
 		}
+		if (mx->x) for (j = 0; j < mx->dp->n_fields; j++) free(mx->x[j].decl_data);
 		free(mx->x); free(mx->by_name); free(mx->ranges);
 		free(mx->group_case_off); free(mx->group_union_off);
 	}
@@ -225,9 +227,10 @@ static void read_schema(FILE *in, int nmsgs)
 			x->sub = tok_ll();
 			d = tok();
 			x->dkind = '-';
+			x->decl_data = NULL;
 			if (d[0] == 'E') { x->dkind = 'E'; f->default_value = &protobuf_c_empty_string; }
-			else if (d[0] == 'S') { x->dkind = 'S'; x->dflt_data = hex2bytes(d + 1, &x->dflt_len); x->dflt_data = realloc(x->dflt_data, x->dflt_len + 1); x->dflt_data[x->dflt_len] = 0; f->default_value = x->dflt_data; }
-			else if (d[0] == 'B') { x->dkind = 'B'; x->dflt_data = hex2bytes(d + 1, &x->dflt_len); x->dflt_bd.len = x->dflt_len; x->dflt_bd.data = x->dflt_data; f->default_value = &x->dflt_bd; }
+			else if (d[0] == 'S') { x->dkind = 'S'; x->dflt_data = hex2bytes(d + 1, &x->dflt_len); x->dflt_data = realloc(x->dflt_data, x->dflt_len + 1); x->dflt_data[x->dflt_len] = 0; f->default_value = x->dflt_data; x->decl_data = malloc(x->dflt_len + 1); memcpy(x->decl_data, x->dflt_data, x->dflt_len + 1); }
+			else if (d[0] == 'B') { x->dkind = 'B'; x->dflt_data = hex2bytes(d + 1, &x->dflt_len); x->dflt_bd.len = x->dflt_len; x->dflt_bd.data = x->dflt_data; f->default_value = &x->dflt_bd; x->decl_data = malloc(x->dflt_len + 1); memcpy(x->decl_data, x->dflt_data, x->dflt_len); }
 			else if (d[0] == 'V') { x->dkind = 'V'; x->dflt_scalar = strtoull(d + 1, NULL, 16); f->default_value = &x->dflt_scalar; }
 			d = tok();
 			if (d[0] == 'V') { x->has_init = 1; x->init_bits = strtoull(d + 1, NULL, 16); }
@@ -436,7 +439,11 @@ static void dump_val(MsgX *mx, unsigned j, const void *p)
 	if (f->type == PROTOBUF_C_TYPE_STRING) {
 		const char *s = *(char *const *) p;
 		if (!s) printf(" N");
-		else if (s == f->default_value) printf(" D");
+		else if (s == f->default_value) {
+			/* the default object is shared by every message: it must still read as declared */
+			if (x->decl_data && (strlen(s) != x->dflt_len || memcmp(s, x->decl_data, x->dflt_len))) { printf(" D!changed:"); put_hex((const uint8_t *) s, strlen(s)); }
+			else printf(" D");
+		}
 		else if (s == protobuf_c_empty_string) printf(" E");
 		else { printf(" S"); put_hex((const uint8_t *) s, strlen(s)); }
 		return;
@@ -445,7 +452,10 @@ static void dump_val(MsgX *mx, unsigned j, const void *p)
 		const ProtobufCBinaryData *bd = p;
 		printf(" %zu", bd->len);
 		if (!bd->data) printf(" N");
-		else if (x->dkind == 'B' && bd->data == x->dflt_data) printf(" D");
+		else if (x->dkind == 'B' && bd->data == x->dflt_data) {
+			if (x->decl_data && memcmp(bd->data, x->decl_data, x->dflt_len)) { printf(" D!changed:"); put_hex(bd->data, x->dflt_len); }
+			else printf(" D");
+		}
 		else { printf(" B"); put_hex(bd->data, bd->len); }
 		return;
 	}
